@@ -270,3 +270,23 @@ End Refill.
    ([keeps] = Gen/FactsStartup.v failed_init_keeps_database) the files are left alone *)
 Definition cs_failed_start (keeps : bool) (m : cs_m) : cs_m :=
   if keeps then cs_crash m else mkM (m_store m) (mkDb [] [] [] []) None.
+
+(* ---- statements over id lists run in chunks of db.ChunkLimit (xslices.Chunk) ---- *)
+Section Chunks.
+  Context {A : Type}.
+  Fixpoint cs_chunks_fuel (fuel n : nat) (l : list A) : list (list A) :=
+    match fuel with
+    | O => []
+    | S f => match l with [] => [] | _ => firstn n l :: cs_chunks_fuel f n (skipn n l) end
+    end.
+  Definition cs_chunks (n : nat) (l : list A) : list (list A) := cs_chunks_fuel (length l) n l.
+  (* the defect class "the statement of a chunk binds the WHOLE list": go-sqlite3 uses the first k arguments, so each
+     chunk's statement works on the first (length chunk) elements of the whole list *)
+  Definition cs_chunks_whole_bound (n : nat) (l : list A) : list (list A) :=
+    map (fun c => firstn (length c) l) (cs_chunks n l).
+End Chunks.
+
+(* DeleteMessages (purge) and the per-message flag statements, chunk by chunk: [own] = every chunk's statement binds the
+   chunk itself (Gen/FactsStartup.v chunk_loops_bind_their_chunk) *)
+Definition cs_chunked_stmts (own : bool) (n : nat) (f : N -> cs_stmt) (ids : list N) : list cs_stmt :=
+  map f (concat (if own then cs_chunks n ids else cs_chunks_whole_bound n ids)).
